@@ -257,6 +257,48 @@ func c15Op(c *WCase, res *WResult) {
 		if out.Kinds == nil {
 			out.Kinds = []string{fmt.Sprintf("ReadAt×%d", out.N)}
 		}
+	case strings.HasPrefix(op, "file."):
+		// the wrapper's plain file helpers (used for key/certificate/ESL files next to the variables)
+		mem := afero.NewMemMapFs()
+		content := bytes.Repeat([]byte{0x5a, 0xa5, 0x01}, 700)
+		name := "/verif-no-such-dir/files/blob.bin"
+		mem.MkdirAll("/verif-no-such-dir/files", 0o755)
+		if op == "file.read" {
+			afero.WriteFile(mem, name, content, 0o644)
+		}
+		ffs := fault.NewFs(mem)
+		ffs.Plan = fault.Plan{K: k, Persistent: persistent, Mode: mode}
+		if en, _ := strconv.Atoi(c.P["errno"]); en != 0 {
+			ffs.Plan.Err = syscall.Errno(en)
+		}
+		e := efivarfs.NewFS()
+		e.SetFS(ffs)
+		var err error
+		var got []byte
+		if op == "file.write" {
+			err = e.WriteFile(name, content, 0o644)
+		} else {
+			got, err = e.ReadFile(name)
+		}
+		out.N, out.Hit, out.HitOp = ffs.Calls(), ffs.Hit, ffs.HitOp
+		out.Kinds = fsKinds(ffs.Events())
+		out.Err = errS(err)
+		switch {
+		case !ffs.Hit && (err != nil || (op == "file.read" && !bytes.Equal(got, content))):
+			bad("harness", "fault-free %s failed: %v", op, err)
+		case !ffs.Hit:
+		case op == "file.write" && err == nil:
+			if mode == "error" && !persistent && retriedSame(ffs.Events()) && fileHoldsLastWrite(ffs, name) {
+				out.Absorbed = true
+			} else {
+				bad("success-reported|"+ffs.HitOp+"|"+mode, "WriteFile reported success although %s failed (%s)", ffs.HitOp, mode)
+			}
+		case op == "file.read" && err == nil && !bytes.Equal(got, content):
+			bad("wrong-value", "ReadFile returned %d bytes that are not the file's content, with nil error, after %s failed (%s)", len(got), ffs.HitOp, mode)
+		case op == "file.read" && err == nil && !(mode == "short-read" || ffs.HitOp == "Close" || ffs.HitOp == "FStat" || ffs.HitOp == "Stat" || retriedSame(ffs.Events())):
+			// a failing size probe is advisory (the content is read to EOF anyway); everything else must surface
+			bad("success-reported", "ReadFile reported success although %s failed (%s)", ffs.HitOp, mode)
+		}
 	case strings.HasPrefix(op, "write.") || strings.HasPrefix(op, "read."):
 		mem := afero.NewMemMapFs()
 		v := efivar.Efivar{Name: "VerifFault", GUID: efivar.PK.GUID, Attributes: 7}
@@ -416,7 +458,7 @@ func checkC15(r *mon.Run) {
 	r.Exhaustive()
 	useFakeEfivarsDir()
 	var ops []string
-	ops = append(ops, "sign.pkcs7", "sign.authenticode", "sign.authenticode.reader", "var.sign", "write.object", "write.legacy", "write.object.append", "write.legacy.append", "write.object.empty", "write.legacy.empty", "write.object.big", "write.legacy.big", "write.object.immutable", "write.signedupdate.fs", "write.signedupdate.signer", "read.object", "read.legacy")
+	ops = append(ops, "sign.pkcs7", "sign.authenticode", "sign.authenticode.reader", "var.sign", "write.object", "write.legacy", "write.object.append", "write.legacy.append", "write.object.empty", "write.legacy.empty", "write.object.big", "write.legacy.big", "write.object.immutable", "write.signedupdate.fs", "write.signedupdate.signer", "read.object", "read.legacy", "file.write", "file.read")
 	imgs := c15Images
 	if !r.Thorough() {
 		imgs = []string{"test.pecoff", "signed", "HelloWorld"}
@@ -460,6 +502,10 @@ func checkC15(r *mon.Run) {
 			modes = []string{"error", "partial-error", "short-read"}
 		case strings.HasPrefix(op, "write.") && !strings.Contains(op, "signer"):
 			modes = []string{"error", "short", "short-error"}
+		case op == "file.write":
+			modes = []string{"error", "short", "short-error"}
+		case op == "file.read":
+			modes = []string{"error", "short-error", "short-read"}
 		case strings.HasPrefix(op, "read."):
 			modes = []string{"error", "short-error", "short-read"}
 		}
@@ -471,7 +517,7 @@ func checkC15(r *mon.Run) {
 				}
 				// filesystem operations: the same position failing with each errno (a retry loop,
 				// an errno-specific branch or an error mapping must still end in an error)
-				if (strings.HasPrefix(op, "write.") || strings.HasPrefix(op, "read.")) && !strings.Contains(op, "signer") && (m == "error" || m == "short-error") {
+				if (strings.HasPrefix(op, "write.") || strings.HasPrefix(op, "read.") || strings.HasPrefix(op, "file.")) && !strings.Contains(op, "signer") && (m == "error" || m == "short-error") {
 					for _, en := range c15Errnos {
 						plans = append(plans, c15Plan{op, m, k, true, int(en)})
 						if m == "error" {
